@@ -47,10 +47,58 @@ def main() -> None:
             res = {"ok": False, "error": traceback.format_exc()[-2000:]}
     elif cmd == "selftest":
         res = selftest()
+    elif cmd == "smoke":
+        res = smoke(job)
     else:
         raise SystemExit(f"unknown command {cmd}")
     with open(job["out"], "w") as fh:
         json.dump(res, fh, default=str)
+
+
+def smoke(job: dict) -> dict:
+    """Small in-process run of every property (used by the mutation analysis): first new finding per property."""
+    import os
+    import time
+
+    from . import runner
+    from .props import PROPS
+    root = os.path.dirname(os.path.dirname(os.path.abspath(__file__)))
+    known = [e for e in json.load(open(os.path.join(root, "known_findings.json")))["entries"] if e["status"] == "known"]
+
+    def is_known(pid: str, f: dict) -> bool:
+        for e in known:
+            if e["property"] != pid or (e.get("clause") and e["clause"] != f["clause"]):
+                continue
+            if not set(e.get("tags", [])) <= set(f.get("tags", [])):
+                continue
+            ok = True
+            for k, v in (e.get("match") or {}).items():
+                fv = f.get(k)
+                if isinstance(v, str) and v.startswith("~"):
+                    ok = ok and fv is not None and v[1:] in str(fv)
+                else:
+                    ok = ok and fv == v
+            if ok:
+                return True
+        return False
+
+    out = {"props": {}, "wall": {}}
+    for pid in sorted(PROPS):
+        t0 = time.time()
+        prop = PROPS[pid]
+        n = max(10, job["seeds"] // 12) if prop.fault_enum else job["seeds"]
+        r = runner.worker_batch({"prop": pid, "base": 4242, "start": 0, "stop": n, "step": 1, "time_budget": job.get("budget", 60),
+                                 "det_every": 10 ** 9})
+        hit = None
+        if r["harness_errors"]:
+            hit = "HARNESS: " + r["harness_errors"][0][-200:]
+        for v in r["violations"]:
+            for f in v["findings"]:
+                if not is_known(pid, f):
+                    hit = hit or f"{f['clause']} {f['tags']}: {f['msg'][:160]}"
+        out["props"][pid] = hit
+        out["wall"][pid] = round(time.time() - t0, 1)
+    return out
 
 
 def selftest() -> dict:
